@@ -591,6 +591,15 @@ def check(run):
         dops += [{"op": "poll", "p": 1}] * (len(beh) + 1) + [{"op": "pop_front"}] * 3 + [{"op": "poll", "p": 2}, {"op": "drop"}]
         big.append({"id": 700000 + j, "variant": variant, "dops": dops, "fut": {str(f): beh for f in range(1, nf + 1)}, "rops": [[], []],
                     "strategy": "random", "seed": run.seed + j})
+    # ... and many futures woken REMOTELY between two polls: every future hands its waker to remote thread 1 at its first
+    # poll, the remote thread wakes all of them, the next deque poll has to poll every one of them
+    for j, nf in enumerate([40, 36, 48, 40]):
+        dops = [{"op": "push_back", "f": f} for f in range(1, nf + 1)]
+        dops += [{"op": "poll", "p": 1}] * 5 + [{"op": "pop_front"}] * 2 + [{"op": "drop"}]
+        big.append({"id": 700100 + j, "variant": ["send", "local"][j % 2] if False else "send", "dops": dops,
+                    "fut": {str(f): ["hand1", "ready"] for f in range(1, nf + 1)},
+                    "rops": [[{"op": "wake_by_ref", "f": f} for f in range(1, nf + 1)], []],
+                    "strategy": ["random", "pct", "random", "pct"][j], "seed": run.seed + 31 * j})
     cfg_big = os.path.join(wd, "Trace_FutureDeque_big.cfg")
     open(cfg_big, "w").write(open(os.path.join(D, "Trace_FutureDeque.cfg")).read().replace("MaxF = 4", "MaxF = 48"))
     judge(run, wd, "manyfutures", big, acc, tables, cfg=cfg_big)
